@@ -12,7 +12,27 @@ import (
 	"verif/vsched"
 )
 
-func Background() context.Context { return context.Background() }
+// rootOverride: per managed thread, the context that context.Background() yields while WithRoot's function runs on it.
+var rootOverride = map[int]context.Context{}
+
+// WithRoot runs fn on the current thread with ctx standing in for every context.Background() the code under test
+// asks for on that thread: the counterfactual "this run's root context is the caller's" for entry points that start
+// their engine on context.Background() (udp and tcp Traceroute): the engine and the real driver are then cancellable.
+func WithRoot(ctx context.Context, fn func()) {
+	id := vsched.CurrentThread()
+	rootOverride[id] = ctx
+	defer delete(rootOverride, id)
+	fn()
+}
+
+func Background() context.Context {
+	if len(rootOverride) > 0 {
+		if ctx, ok := rootOverride[vsched.CurrentThread()]; ok {
+			return ctx
+		}
+	}
+	return context.Background()
+}
 func TODO() context.Context       { return context.TODO() }
 
 type CancelFunc = context.CancelFunc
